@@ -503,6 +503,41 @@ def k6_only_through_the_tables(ctx, facts, tables, cfg):
                       "the operator function %s is invoked directly (%s): its operand count has not been checked against its descriptor" % (c["path"], why), where=b.where(bi), fn=b.key, nontrivial=True,
                       sample={"callee": c["path"], "caller": b.key})
     ctx.count("direct calls of operator functions (%s)" % cfg, n)
+    # … and the functions that *invoke* a table entry (the `execute` methods: bodies with a call through a table's
+    # function pointer) are called by the operation evaluators only — the one place whose operand list went through
+    # the length check.  Any other caller (a fast path that fetches an entry from a table and runs it) bypasses arity.
+    execs = table_invokers(facts, roles)
+    for ek in sorted(execs):
+        for b in facts.fns():
+            for bi, t in b.calls():
+                c = callee_of(t)
+                if not c or not c["local"] or c["key"] != ek:
+                    continue
+                root = b.key
+                while "::{closure#" in root:
+                    root = root.rsplit("::{closure#", 1)[0]
+                ctx.check(root in roles.evaluators, "K6.through-table", "%s ← %s (%s)" % (ek.split("::", 1)[1], b.key.split("::", 1)[1], cfg),
+                          "an operator is run from %s, not from the operation evaluator that holds the length-checked operand list: its operand count is unchecked" % b.key.split("::", 1)[1], where=b.where(bi), fn=b.key, nontrivial=True)
+
+
+def table_invokers(facts, roles):
+    """Keys of the local functions that call through a function pointer of an operator table's signature."""
+    import re as _re
+
+    def norm(sig):
+        sig = _re.sub(r"for<[^>]*>\s*", "", sig or "")
+        sig = _re.sub(r"'\w+\s*", "", sig)
+        sig = _re.sub(r"\s*\{.*\}$", "", sig)
+        return _re.sub(r"\s+", "", sig)
+    sigs = {norm(facts.items.get(e.fn_key, {}).get("sig")) for t in roles.tables for e in t.entries if facts.items.get(e.fn_key, {}).get("sig")}
+    out = set()
+    for b in facts.fns():
+        if b.kind != "fn":
+            continue
+        for _, t in b.calls():
+            if callee_of(t) is None and norm(t.get("fty") or "") in sigs:
+                out.add(b.key)
+    return out
 
 
 def vec_macro_elems(body, d):
